@@ -27,8 +27,9 @@ func init() {
 		ID:    "C06",
 		Title: "ReadPacket consumes exactly one frame from the stream",
 		Level: "model_checking",
-		Rule: "explicit enumeration of operation histories on the real decoder: every sequence of length 1..2 over the whole frame alphabet (valid minimal+rich frames of all 15 types, short forms, remaining-length-0 frames of all 16 first-byte types, content-malformed frames) and every sequence of length 3 over a sub-alphabet (quick: 18 frames incl. a 5 000-byte frame; thorough: the whole alphabet), each followed by every tail in {none, 00, ff ff ff ff ff, first byte of a header, a whole further frame}, and each handed to ReadPacket through nine io.Reader implementations (a counting reader; bufio.Reader with a 16-byte and a 4096-byte buffer, and one that already holds data when handed over; a reader of its own type offering ReadByte/Peek/Discard/Buffered/WriteTo; io.LimitedReader; bytes.Buffer; bytes.Reader; strings.Reader — a decoder may special-case what a reader can do; plus six buffering readers over a source that hands over 1-7 bytes per Read, so that the buffer ends inside frames). " +
+		Rule: "explicit enumeration of operation histories on the real decoder: every sequence of length 1..2 over the whole frame alphabet (valid minimal+rich frames of all 15 types, short forms, remaining-length-0 frames of all 16 first-byte types, content-malformed frames) and every sequence of length 3 over a sub-alphabet (quick: 18 frames incl. a 5 000-byte frame; thorough: the whole alphabet), each followed by every tail in {none, 00, ff ff ff ff ff, first byte of a header, a whole further frame}, and each handed to ReadPacket through eleven io.Reader implementations (a counting reader; a reader of own type with a Close method - after Close every Read fails, so a decoder that closes the caller's reader loses the rest of the stream; bufio.Reader with a 16-byte and a 4096-byte buffer, and one that already holds data when handed over; a reader of its own type offering ReadByte/Peek/Discard/Buffered/WriteTo; io.LimitedReader; bytes.Buffer; bytes.Reader; strings.Reader — a decoder may special-case what a reader can do; plus six buffering readers over a source that hands over 1-7 bytes per Read, so that the buffer ends inside frames). " +
 			"After each call: bytes drawn from the counting reader == 1+|remaining length field|+remaining length of that frame; result i equals the result of reading frame i alone (history and tail independence); every packet returned by an earlier call is observed again after the last call and must be unchanged (a frame's result depends on its own bytes only); with no tail the call after the last frame returns an error satisfying errors.Is(err, io.EOF). " +
+			"Map orders: every frame of the alphabet, and every rich frame of V with one more property (each defined identifier, zero and non-zero value) inserted at every property boundary, is decoded under six orderings of every map range the decoder meets (instrumenter's map-range seam; all n! orderings for n <= 3): the result must be the result under the sorted walk. " +
 			"states = distinct (sequence prefix) stream positions visited, transitions = ReadPacket calls; distinct_nontrivial = distinct (sequence, tail) of length >= 2.",
 		Assumptions: []string{
 			"the readers are contiguous here (they hand over min(asked, available) bytes); fragmentation is C07's dimension",
@@ -104,7 +105,17 @@ func c06Open(kind int, stream []byte) c06Stream {
 	return c06Stream{r, func() int { return under.Off }}
 }
 
+// kind c06KindMutate: the counting reader, and the caller changes every
+// packet it is handed (through the setters of its type) before it reads on
+// - the packet is the caller's; what later frames decode to must not depend
+// on it.
+const c06KindMutate = -1
+
 func c06Exec(frames []CFrame, seq []int, tail int, alone []string, kind int) *core.Finding {
+	mutate := kind == c06KindMutate
+	if mutate {
+		kind = 0
+	}
 	resetGlobals()
 	var stream []byte
 	for _, i := range seq {
@@ -118,8 +129,12 @@ func c06Exec(frames []CFrame, seq []int, tail int, alone []string, kind int) *co
 		names += frames[i].Name + " "
 	}
 	mk := func(class, what string) *core.Finding {
-		return &core.Finding{Class: class + "/" + c06ReaderKinds[kind], Sig: map[string]string{"seq": names, "reader": c06ReaderKinds[kind]},
-			Detail: fmt.Sprintf("stream [%s] + tail % x through %s: %s", names, c06Tails[tail], c06ReaderKinds[kind], what)}
+		rk := c06ReaderKinds[kind]
+		if mutate {
+			rk += ", every returned packet changed through its setters before the next call"
+		}
+		return &core.Finding{Class: class + "/" + rk, Sig: map[string]string{"seq": names, "reader": rk},
+			Detail: fmt.Sprintf("stream [%s] + tail % x through %s: %s", names, c06Tails[tail], rk, what)}
 	}
 	var kept []mq.Packet
 	var keptObs []string
@@ -128,8 +143,16 @@ func c06Exec(frames []CFrame, seq []int, tail int, alone []string, kind int) *co
 		before := st.used()
 		p, err, res := readPacket(r, stepBudget(len(frames[i].B)))
 		got := outcome(p, err, res)
-		if p != nil && err == nil {
+		if p != nil && err == nil && !mutate {
 			kept, keptObs, keptAt = append(kept, p), append(keptObs, got), append(keptAt, j)
+		}
+		if p != nil && err == nil && mutate {
+			if _, isU := p.(*mq.Undefined); !isU {
+				for _, m := range c14Mutators(p) {
+					m := m
+					guarded(0, func() { m.Call(p) })
+				}
+			}
 		}
 		drawn := st.used() - before
 		if err != nil && p == nil && res.Panic == "" && !res.Budget && drawn <= c06HeaderLen(frames[i].B) && drawn < len(frames[i].B) && c06HeaderObjectionable(frames[i].B) {
@@ -245,7 +268,7 @@ func c06Frames() []CFrame {
 // c06Costly: frames that are only combined with the sub-alphabet (and never
 // with each other), to keep the stream sizes in hand.
 func c06Costly(f CFrame) bool {
-	return len(f.B) > 60000 || strings.HasPrefix(f.Name, "publish.payload=") || strings.HasPrefix(f.Name, "publish.remlen=")
+	return len(f.B) > 60000 || strings.HasPrefix(f.Name, "publish.payload=") || strings.HasPrefix(f.Name, "publish.remlen=") || strings.HasPrefix(f.Name, "type0.body=")
 }
 
 func runC06(x *core.Ctx) {
@@ -265,6 +288,17 @@ func runC06(x *core.Ctx) {
 			return true
 		}
 		for tail := range c06Tails {
+			if tail == 0 && len(seq) >= 2 {
+				x.Eval(stratum + ".packets-changed-by-caller")
+				x.R.Transitions += int64(len(seq))
+				x.R.Traces++
+				if f := c06Exec(frames, seq, tail, alone, c06KindMutate); f != nil {
+					s := append([]int{}, seq...)
+					x.Report(f, func() core.Case {
+						return core.Case{Harness: "c06", Choices: s, Params: map[string]any{"tail": 0, "reader": c06KindMutate}}
+					}, func() *core.Finding { return c06Exec(frames, s, 0, alone, c06KindMutate) })
+				}
+			}
 			for kind := range c06ReaderKinds {
 				if stratum == "len3" && x.Thorough() && !(kind == 0 || kind == int(env.KBufio4096) || kind == int(env.KBytesBuffer) || kind == int(env.NKinds)+1) {
 					continue // thorough: all triples over the whole alphabet, through four reader configurations
